@@ -168,3 +168,13 @@ Theorem C01_float_widening_exact : forall bits s m e, fdecode 23 8 bits = S754_f
   exists y, s2d bits = fencode 52 11 y /\ fdecode 52 11 (s2d bits) = y /\ SF2R radix2 y = rval s m e /\ is_finite_SF y = true.
 Proof. exact s2d_finite_exact. Qed.
 Print Assumptions C01_float_widening_exact.
+
+(** a 'float' leaf is stable under read-then-write: the pattern the writer produced ([d2s b = Ok x], any double b incl. NaN,
+    infinities, subnormals) widened by the reader and narrowed again by the writer is the same pattern; and every non-NaN
+    binary32 pattern (also one a foreign writer produced) has this property *)
+Theorem C01_float_leaf_stable :
+  (forall b x, d2s b = Ok x -> d2s (s2d x) = Ok x) /\
+  (forall w, 0 <= w < 2 ^ 32 -> fdecode 23 8 w <> S754_nan -> d2s (s2d w) = Ok w).
+Proof. split; [exact d2s_image_stable|exact d2s_s2d]. Qed.
+Print Assumptions C01_float_leaf_stable.
+
